@@ -179,6 +179,26 @@ func checkC19(c *Check) {
 						}
 					}
 				}
+				if !ok {
+					// or: every error return goes through a helper that closes them (explicit instead of deferred)
+					nErr, covered := 0, 0
+					for _, b := range callee.Blocks {
+						ret, isR := b.Instrs[len(b.Instrs)-1].(*ssa.Return)
+						if !isR || len(ret.Results) != 2 || isNilConst(retVal(ret, 1)) {
+							continue
+						}
+						nErr++
+						for _, in := range b.Instrs {
+							if c4, isC := in.(*ssa.Call); isC {
+								if hf := spawnedFn(&c4.Call); hf != nil && inModule(hf) && reachesCall(hf, 1, nameIs("syscall.Close")) {
+									covered++
+									break
+								}
+							}
+						}
+					}
+					ok = nErr > 0 && covered == nErr
+				}
 				c.Cond(ok, "3/no-leak-on-reject", us+"."+callee.Name()+":cleanup", p.Pos(callee.Pos()), "a parse failure closes the descriptors parsed so far", "a failure while parsing control messages leaks the descriptors already parsed")
 			}
 		}
